@@ -317,7 +317,9 @@ impl Monitor for C12 {
             Mode::Pow2 => {
                 // incl. very small and very large units (2^-60 .. 2^60): an absolute epsilon or
                 // threshold in the code shows only there
-                let a: f64 = *rng.pick(&[2.0, 0.5, 4.0, 1024.0, 0.0078125, 65536.0, 8.673617379884035e-19, 1.152921504606847e18, 9.313225746154785e-10, 1073741824.0, 2.9802322387695312e-8]);
+                // (2^-200 and 2^200 as well: a flush-to-zero or a saturation placed "far outside any real
+                // data" is still a dependence on the unit; squares stay far from under- and overflow)
+                let a: f64 = *rng.pick(&[2.0, 0.5, 4.0, 1024.0, 0.0078125, 65536.0, 8.673617379884035e-19, 1.152921504606847e18, 9.313225746154785e-10, 1073741824.0, 2.9802322387695312e-8, 6.223015277861142e-61, 1.6069380442589903e60]);
                 // a dyadic offset stays exact only next to a moderate scale
                 let moderate = a.log2().abs() <= 20.0;
                 // (the generators' values are multiples of 2^-10 below 2^15: adding 2^30 or -2^33 is exact)
